@@ -62,11 +62,35 @@ def run_property(pid, tier, seed, replay=None, only=None, nproc=None, verbose=Fa
     if nproc == 1 or len(_JOBS) == 1:
         for i in range(len(_JOBS)): results.append(_run_job(i))
     else:
+        # own process management instead of a Pool: a worker stuck inside a solver call that ignores both its timeout and the in-process alarm is killed by the
+        # parent at cap + 60 s and reported as an engine error (never as success)
         ctx = multiprocessing.get_context('fork')
-        with ctx.Pool(min(nproc, len(_JOBS))) as pool:
-            for r in pool.imap_unordered(_run_job, range(len(_JOBS))):
-                results.append(r)
-                if verbose: print('  job %-40s %.1fs %s' % (r['job'], r['wall'], 'ERR' if r['error'] else ''), flush=True)
+        pending = list(range(len(_JOBS))); running = {}
+        def _child(i, conn):
+            try: conn.send(_run_job(i))
+            except BaseException as e:
+                import traceback as _tb; sys.stderr.write('worker %s: %s\n' % (_JOBS[i][0], _tb.format_exc()[-800:]))
+                try: conn.send(dict(job=_JOBS[i][0], records=[], violations=[], known=[], inconclusive=[], engine_errors=[], validated=0, error='worker failed: %r' % (e,), wall=0.0))
+                except Exception: pass
+            finally: conn.close()
+        import multiprocessing.connection as mpc
+        while pending or running:
+            while pending and len(running) < nproc:
+                i = pending.pop(0); pc, cc = ctx.Pipe(duplex=False)
+                pr = ctx.Process(target=_child, args=(i, cc)); pr.daemon = True; pr.start(); cc.close()
+                running[i] = (pr, pc, time.time())
+            ready = mpc.wait([v[1] for v in running.values()], timeout=2.0)
+            for i in list(running):
+                pr, pc, ts = running[i]
+                r = None
+                if pc in ready:
+                    try: r = pc.recv()
+                    except (EOFError, OSError): r = dict(job=_JOBS[i][0], records=[], violations=[], known=[], inconclusive=[], engine_errors=[], validated=0, error='worker died without a result (exit code %r)' % (pr.join(2) or pr.exitcode,), wall=time.time() - ts)
+                elif time.time() - ts > cap + 60:
+                    pr.kill(); r = dict(job=_JOBS[i][0], records=[], violations=[], known=[], inconclusive=[], engine_errors=[], validated=0, error='killed by the runner: job exceeded its wall-clock cap of %ds (solver call did not return)' % cap, wall=time.time() - ts)
+                if r is not None:
+                    pr.join(timeout=5); pc.close(); del running[i]; results.append(r)
+                    if verbose: print('  job %-40s %.1fs %s' % (r['job'], r['wall'], 'ERR' if r['error'] else ''), flush=True)
     results.sort(key=lambda r: r['job'])
     return finish(pid, tier, seed, mod, results, time.time() - t0, t_compile, flat, replay)
 
